@@ -270,7 +270,7 @@ def shard_main(argv):
 
 
 def write_replay(v):
-    d = os.path.join(VERIF, "replays")
+    d = os.environ.get("VERIF_REPLAY_DIR") or os.path.join(VERIF, "replays")
     os.makedirs(d, exist_ok=True)
     blob = json.dumps(v, sort_keys=True)
     h = hashlib.blake2b(blob.encode(), digest_size=6).hexdigest()
@@ -460,8 +460,9 @@ def finish(mod, pid, tier, seed, plan, results, dead, wall, extra=None):
         "wall_s": round(wall, 2),
         "violations": int(len(new_viols) + max(0, unclassified_overflow)),
     }
-    os.makedirs(os.path.join(VERIF, "evidence"), exist_ok=True)
-    with open(os.path.join(VERIF, "evidence", pid + ".json"), "w") as f:
+    evdir = os.environ.get("VERIF_EVIDENCE_DIR") or os.path.join(VERIF, "evidence")
+    os.makedirs(evdir, exist_ok=True)
+    with open(os.path.join(evdir, pid + ".json"), "w") as f:
         json.dump(evidence, f, indent=1, sort_keys=True)
         f.write("\n")
 
